@@ -219,6 +219,17 @@ def _run_history(case, vseed):
                 # (with tied sample numbers -- outside C07's quantifier -- the stable sort keeps the order handed in)
                 po = r.get("prev_order", "returned") if _valid_cards(case) else "returned"
                 parg = list(prev) if po == "returned" else (sorted(prev) if po == "index" else list(prev)[::-1])
+            if r.get("failed_first") and all(nsz >= 1 for nsz in r["sizes"]):
+                # an impossible request first (one contest asked for more cards than list it: IndexError), then the
+                # documented recovery: catch, put the sizes right, call again on the same objects
+                c0 = cids[len(r["sizes"]) % len(cids)]
+                contests[c0].sample_size = sum(1 for cd in cards if c0 in cd["styles"]) + 1
+                try:
+                    CVR.consistent_sampling(cvrs, contests, None if parg is None else list(parg))
+                except Exception:  # noqa
+                    pass
+                for c, nsz in zip(cids, r["sizes"]):
+                    contests[c].sample_size = nsz
             sel = CVR.consistent_sampling(cvrs, contests, parg)
         except Exception as e:  # noqa
             out.append({"st": "err", "err": err_kind(e), "alt": alt})
@@ -256,6 +267,11 @@ def impl(case):
         _SCALE[:] = [1, "int"]
 
 
+def _cont(case, items):
+    from ..core import container
+    return container(case.get("container"), items)
+
+
 def _impl(case):
     k = case["kind"]
     if k == "rounds":
@@ -291,15 +307,15 @@ def _impl(case):
                     h = self.hs[self.i]; self.i += 1
                     return h
             hs = [bytes.fromhex(h) for h in case["hashes"]]
-            CVR.assign_sample_nums(cvrs, Stub(hs))
+            CVR.assign_sample_nums(_cont(case, cvrs), Stub(hs))
             script = [str(int_from_hash(h)) for h in hs]
             return {"st": "ok", "nums": [str(int(c.sample_num)) for c in cvrs], "script": script, "det": True}
         from cryptorandom.cryptorandom import SHA256, int_from_hash
-        CVR.assign_sample_nums(cvrs, SHA256(case["seed"]))
+        CVR.assign_sample_nums(_cont(case, cvrs), SHA256(case["seed"]))
         # same seed, different records -> same numbers
         rng2 = random.Random(case["vseed"] + 1)
         cvrs2 = [CVR(id=f"d{i}", votes=_votes(rng2, rng2.sample(CIDS, rng2.randint(0, 3))), phantom=False) for i in range(n)]
-        CVR.assign_sample_nums(cvrs2, SHA256(case["seed"]))
+        CVR.assign_sample_nums(_cont(case, cvrs2), SHA256(case["seed"]))
         g = SHA256(case["seed"])
         script = [str(int_from_hash(g.nextRandom())) for _ in range(n)]
         return {"st": "ok", "nums": [str(int(c.sample_num)) for c in cvrs], "script": script,
@@ -398,7 +414,7 @@ def _impl_renumber(case):
     for op in case["ops"]:
         if op["op"] == "number":
             prng = _Stub([bytes.fromhex(h) for h in op["hashes"]]) if op.get("hashes") is not None else SHA256(op["seed"])
-            CVR.assign_sample_nums(cvrs, prng)
+            CVR.assign_sample_nums(_cont(case, cvrs), prng)
             last = [str(int(c.sample_num)) for c in cvrs]
             steps.append({"nums": last})
         else:
@@ -626,7 +642,8 @@ def gen_rounds(rng, n=None, ncon=None, nr=None, malformed=None):
     cards = _cards(rng, n, cids, "ties" if malformed == "ties" else None)
     paths = {c: _size_path(rng, _avail(cards, c), nr) for c in cids}
     rounds = [{"sizes": [paths[c][r] for c in cids], "cont": bool(r > 0 and rng.chance(0.5)),
-               "prev_order": rng.choice(["returned", "returned", "index", "rev"])} for r in range(nr)]
+               "prev_order": rng.choice(["returned", "returned", "index", "rev"]),
+               "failed_first": rng.chance(0.12)} for r in range(nr)]
     if malformed == "beyond":
         r = rng.randrange(nr); ci = rng.randrange(ncon)
         for rr in range(r, nr):
@@ -719,12 +736,13 @@ def gen_cs(rng):
 
 
 def gen_assign(rng):
+    from ..core import CONTAINER_KINDS
     n = rng.randint(0, 12)
     if rng.chance(0.5):
         return {"kind": "assign", "n": n, "seed": None, "hashes": [("%064x" % rng.getrandbits(256)) for _ in range(n)],
-                "vseed": rng.randint(0, 10 ** 6)}
+                "vseed": rng.randint(0, 10 ** 6), "container": rng.choice(CONTAINER_KINDS)}
     return {"kind": "assign", "n": n, "seed": rng.choice([1234567890, rng.randint(0, 10 ** 9)]), "hashes": None,
-            "vseed": rng.randint(0, 10 ** 6)}
+            "vseed": rng.randint(0, 10 ** 6), "container": rng.choice(CONTAINER_KINDS)}
 
 
 def gen_renumber(rng):
@@ -1055,6 +1073,12 @@ def oracle_c07(case, ir):
                     "sizes": sizes}
         if not res.get("prep_ok", True):
             return {"what": f"round {r}: prep_comparison_sample did not restore the selection order"}
+        flagged = [i for i, f in enumerate(res.get("flags", [])) if f]
+        if "flags" in res and flagged != sorted(want):
+            return {"what": f"round {r}: the cards recorded as sampled (`sampled` flags, read by find_sample_size) are "
+                            f"{flagged}; the union of the per-contest prefixes is {sorted(want)}"
+                            + (" -- after a request that raised IndexError and was then corrected" if rd.get("failed_first") else ""),
+                    "sizes": sizes}
         for ci, ((mine, first), nc) in enumerate(zip(pf, sizes)):
             if nc >= 1:
                 t = str(int(cards[first[-1]]["num"]))
